@@ -34,6 +34,10 @@ try:
     from . import deriv_rules as DR
 except ImportError:  # pragma: no cover
     DR = None
+try:
+    from . import spec_rules as SP
+except ImportError:  # pragma: no cover
+    SP = None
 
 
 def _get(mod, name):
@@ -72,6 +76,8 @@ RULES = {
     "R30": _get(GR, "r30_conv_geometry"),
     "R32": _get(SR, "r32_sliced_shape_contract"),
     "R33": _get(DR, "r33_derivative_formula"),
+    "R34": _get(SP, "r34_documented_formulas"),
+    "R35": _get(SP, "r35_pointwise_definitions"),
 }
 
 # property -> rules (DESIGN.md section 4)
@@ -79,6 +85,7 @@ PROPERTY_RULES = {
     "C01": ["R9", "R8", "R5", "R27", "R6", "R24", "R11", "R25", "R23", "R26"],
     "C02": ["R12", "R13", "R15", "R9", "R33", "R29", "R31", "R30", "R32"],
     "C03": ["R11", "R21"],
+    "C07": ["R35", "R16"],
     "C08": ["R1", "R2", "R3", "R4", "R7"],
     "C09": ["R8", "R9", "R10", "R5"],
     "C10": ["R23", "R20", "R25", "R9", "R11", "R10", "R26", "R24"],
@@ -86,6 +93,7 @@ PROPERTY_RULES = {
     "C12": ["R5", "R27", "R3", "R6", "R7", "R17", "R23"],
     "C13": ["R21", "R22", "R28"],
     "C14": ["R21", "R28", "R22", "R20", "R24", "R23"],
+    "C15": ["R34"],
     "C16": ["R16", "R3", "R17"],
     "C17": ["R13", "R14", "R26"],
     "C18": ["R20", "R21", "R7", "R8"],
@@ -116,6 +124,11 @@ EXPLANATION = {
     "C03": "Clause-level static verdict: shape typestate (R11) proves that every value entering a pending-delta or gradient slot "
            "has been reduced to the owner's dimensions, for the first and every later contribution; R21 adds that the optimizer "
            "builds parameters from the parameter's own dimensions. Does NOT decide the summed values.",
+    "C07": "Clause-level static verdict: the forward maps of negation, scaling, powf, ln, exp, reciprocal, relu and sigmoid - read from "
+           "the source and compared in an exact rational-function algebra - are exactly their scalar definitions and the results are built "
+           "with the operand's own dimensions; softmax is exp divided by sum(exp, 1); sum_all is the sum of the values; reshape passes the "
+           "flat values through unchanged and goes through the checked constructor, which refuses a different element count (R35, R16). "
+           "Does NOT decide sum(k) (its index walk over runtime shapes) nor numerical accuracy.",
     "C08": "Whole-property static proof: shown storage (the fields read by dimensions()/values()/Index/eq) is private, Freeze all the "
            "way down (R1), there is no user unsafe (R2), no body stores to or mutably borrows it (R3), the public API returns no "
            "mutable path into it and Array has no &mut self method (R4), and no type has a destructor (R7). Hence no safe program can "
@@ -150,6 +163,12 @@ EXPLANATION = {
            "only for tracked children and paid back once per contribution (R24) and nobody else writes engine state (R23), so no "
            "counter residue survives a pass on a parameter that was frozen meanwhile. Does NOT decide that each step follows the exact "
            "gradient of the current loss (numeric).",
+    "C15": "Clause-level static verdict: read from the source and compared in an exact algebra in which matmul, conv, sum_all and the "
+           "activation / cost closures are uninterpreted function symbols: mse = (target - output)^2 / element count, cross-entropy = "
+           "-target * ln(output) / leading dimension, Dense::forward = activation?(matmul((x, false), (weights, true), Some(biases))), "
+           "Conv::forward = activation?(conv(x, filters, stride) + biases), Model::forward applies every layer once, first to last, each to "
+           "the previous result, and Model::backward returns sum_all(cost(stored output, target)) (R34). Decides that the right function is "
+           "applied to the right arguments in the right order; does NOT decide what matmul / conv compute (C05 / C06).",
     "C16": "Clause-level static verdict: all refusal clauses via the constructor funnel and its dominating assertions plus no later "
            "write (R16,R3), and equality reads exactly dimensions and values as a conjunction (R17). Does NOT decide index arithmetic.",
     "C17": "Clause-level static verdict: linearity type system over every built-in backward closure and the engine's delta path "
